@@ -76,7 +76,7 @@ def run(tier, seed):
     try:
         runner.build_programs(built, root)
         swcases, nsweeps, dropped = c06.sweeps_for(chk, built, rng, 1, 1, root)
-        swres, swst = runner.validate_sweeps(swcases, workers=4, parallel=4)
+        swres, swst = runner.validate_sweeps(swcases, workers=2, parallel=8)
         for c, (v, reps) in zip(swcases, swres):
             if v == 'ACCEPT':
                 swacc += 1
